@@ -81,3 +81,17 @@ Definition show_put_result (r : option (res (list put))) : list N :=
   | Some Raise => [10; END; END2]
   | Some (Ok l) => (12 :: END :: flat_map show_put l ++ [END2])%list
   end.
+
+(* ---- connection machine (C01, C08, C12, C13, C20) *)
+From Ynca Require Import Model.Conn.
+Open Scope N_scope.
+Definition show_item (i : item) : list N :=
+  match i with IKA => [1] | IExit => [2] | ICmd n t => 3 :: N.of_nat n :: t end.
+
+Definition show_conn (r : cstate * option nat) : list N :=
+  let '(s, d) := r in
+  ((match d with None => [0] | Some n => [1; N.of_nat n] end) ++ [END] ++
+   flat_map (fun w => (Z.to_N (fst w) :: show_item (snd w)) ++ [END]) (g_wire s) ++ [7; END] ++
+   flat_map show_msg (g_delivered s) ++ [7; END] ++
+   flat_map (fun e => (match e with LSend t => 1 :: t | LRecv t => 2 :: t end) ++ [END]) (logbuf s) ++
+   [7; END] ++ flat_map (fun l => (8 :: l) ++ [END]) (g_withheld s) ++ [END2])%list.
